@@ -110,6 +110,10 @@ inline uint64_t fnv64(const std::string& s) {
     for (unsigned char c : s) { h ^= c; h *= 1099511628211ULL; }
     return h;
 }
+// accumulate rendered text into a content-sensitive digest (length and bytes), so that two runs can be compared
+inline void racc(uint64_t& h, const std::string& s) {
+    h = (h ^ fnv64(s)) * 1099511628211ULL + s.size();
+}
 inline bool slurp(const std::string& path, std::string& out) {
     std::ifstream f(path, std::ios::binary);
     if (!f) return false;
